@@ -434,5 +434,5 @@ def run(ctx):
     ctx.borrow(c12.r5, {'C12.R5': 'C06.R7'},
                'decoded text re-encodes to the same bytes only if it was printed with the type\'s own precision')
     import rules.common as _common
-    ctx.rule('C06.R11', 'arguments keep their roles across calls: at every call of a repository function in the field/data type sources (the same offsets, lengths and formats must reach decode and encode) whose arguments are named like parameters of the callee, no two of them are passed crosswise (argument i named like parameter j and argument j like parameter i)', minimum=40)
-    _common.swapped_args_rule(ctx, 'C06.R11', ('src/lib/ebus/data',), 40)
+    ctx.rule('C06.R11', 'arguments keep their roles across calls: at every call of a repository function in the field/data type sources (the same offsets, lengths and formats must reach decode and encode) whose arguments are named like parameters of the callee, no two of them are passed crosswise (argument i named like parameter j and argument j like parameter i)', minimum=15)
+    _common.swapped_args_rule(ctx, 'C06.R11', ('src/lib/ebus/data',), 15)
